@@ -80,6 +80,10 @@ def storeKept (a : Algo) : Bool :=
 /-- An obligation of the retention clause. -/
 structure Obl where
   b : Bundle
+  /-- the ID under which the node holds the bundle: the bundle's own ID for a received bundle; for a
+      submitted one the ID the node assigned to it (the node chooses the sequence number), read off the
+      observation of the submission (`filedKey`) -/
+  key : Key
   /-- submitted by a local application: the *very bundle* must be stored (the node owes it a sequence
       number of its own); received from a peer: some copy with this bundle ID must be stored -/
   strict : Bool
@@ -118,32 +122,58 @@ def sentIn (outs : List Output) (addr tag : Nat) : Bool :=
 /-- Was a copy of the obligation's bundle successfully handed to a convergence layer in this event? -/
 def Obl.discharged (o : Obl) (outs : List Output) : Bool :=
   outs.any (fun x => match x with
-    | .sent _ b ok => ok && (if o.strict then b.tag == o.b.tag else b.key == o.b.key)
+    | .sent _ b ok => ok && b.key == o.key && (!o.strict || b.tag == o.b.tag)
     | _ => false)
 
-/-- Is the obligation's bundle in the store (and which item)? A submitted bundle is looked for under
-its source and creation time (the node chooses the sequence number) and must be this very bundle. -/
+/-- Is the obligation's bundle in the store (and which item)? A submitted bundle must be this very
+bundle. -/
 def Obl.item (o : Obl) (v : View) : Option ItemView :=
-  if o.strict then
-    v.items.find? (fun i => i.key.src == o.b.src && i.key.ts == o.b.ts && i.bundle.tag == o.b.tag)
-  else v.get o.b.key
+  match v.get o.key with
+  | some i => if !o.strict || i.bundle.tag == o.b.tag then some i else none
+  | none => none
+
+/-- An ID of the bundle's (source, creation time) that did not exist before the event. -/
+def isNewKey (prev : View) (b : Bundle) (k : Key) : Bool :=
+  k.src == b.src && k.ts == b.ts && (prev.get k).isNone
+
+/-- The new ID a transmission of the bundle `b` carries, if this output is one. -/
+def newKeyOf (prev : View) (b : Bundle) : Output → Option Key
+  | .sent _ b' _ => if b'.tag == b.tag && isNewKey prev b b'.key then some b'.key else none
+  | .deleted _ => none
+
+/-- A store item holding the bundle `b` under a new ID. -/
+def isNewItem (prev : View) (b : Bundle) (i : ItemView) : Bool :=
+  i.bundle.tag == b.tag && isNewKey prev b i.key
+
+/-- The ID under which a submission was filed, read off its observation: an ID of the bundle's (source,
+creation time) that did not exist before the event and that a transmission of this bundle in the event,
+or else an item of the store after the event, carries. If there is neither (the bundle went nowhere), the
+ID the application wrote. -/
+def filedKey (prev : View) (o : Obs) (b : Bundle) : Key :=
+  match o.outs.findSome? (newKeyOf prev b) with
+  | some k => k
+  | none =>
+    match o.view.items.find? (isNewItem prev b) with
+    | some i => i.key
+    | none => b.key
 
 /-- The new obligation an event creates: a bundle accepted for forwarding whose lifetime has not ended
 and which is not refused for cause. -/
-def newObl (c : Cfg) (s : SpecSt) : Event → Option Obl
+def newObl (c : Cfg) (s : SpecSt) (o : Obs) : Option Obl :=
+  match o.ev with
   | .submit b =>
     if b.src.node == c.self && b.dst.node != c.self && lifetimeOk s.now s.now b && !hopRefused b
-    then some { b := b, strict := true, acceptedAt := s.now } else none
+    then some { b := b, key := filedKey s.prev o b, strict := true, acceptedAt := s.now } else none
   | .receive b _ =>
     if b.dst.node != c.self && lifetimeOk s.now s.now b && !hopRefused b && !b.delBlock
        && (s.prev.get b.key).isNone
-    then some { b := b, strict := false, acceptedAt := s.now } else none
+    then some { b := b, key := b.key, strict := false, acceptedAt := s.now } else none
   | _ => none
 
 /-- The obligations alive after the event: old and new ones that were not discharged by a successful
 transmission and whose lifetime has not ended. -/
 def oblsAfter (c : Cfg) (s : SpecSt) (o : Obs) : List Obl :=
-  (s.obls ++ (newObl c s o.ev).toList).filter
+  (s.obls ++ (newObl c s o).toList).filter
     (fun ob => !ob.discharged o.outs && lifetimeOk (nowAfter s.now o.ev) ob.acceptedAt ob.b)
 
 /-! ## C05 clauses -/
@@ -160,8 +190,10 @@ def retainedFail1 (o : Obs) (ob : Obl) : Option String :=
   | none =>
     -- another bundle sits under the ID of a submitted one, or another submission with that ID has just
     -- taken the stored copy with it
-    if ob.strict && ((o.view.get ob.b.key).isSome ||
-        (match o.ev with | .submit b' => b'.key == ob.b.key && b'.tag != ob.b.tag | _ => false))
+    if ob.strict && ((o.view.get ob.key).isSome ||
+        (match o.ev with
+         | .submit b' => b'.src == ob.key.src && b'.ts == ob.key.ts && b'.tag != ob.b.tag
+         | _ => false))
     then some "retained-lost-same-id-submit"
     else if ob.b.ts == 0 && isCleanTick o.ev then some "retained-lost-zero-time-clean"
     else some "retained-lost"
